@@ -24,8 +24,10 @@ static inline _Bool SymbolString_isMaster(const SymbolString* s) { return s->m_i
 static inline size_t SymbolString_getDataSize(const SymbolString* s) { return 255; }     /* enough data: lengths are fixed in this model */
 static inline void vstr_clear(vstr* s) { s->n = 0; s->d[0] = 0; }
 static inline _Bool env_name_eq(const char* name, const struct SDF* f) { return nondet_bool(); }
-static inline _Bool env_getline(struct iss* in, vstr* tok, char sep) { return nondet_bool(); }
-static inline struct iss env_iss(const vstr* s) { struct iss r; r.dummy = 0; return r; }
+/* the input text: g_tok_avail values separated by the separator; getline hands them out in order (token number 1, 2, ...) */
+unsigned g_tok_next, g_tok_avail; int g_field_tok[FCAP];
+static inline _Bool env_getline(struct iss* in, vstr* tok, char sep) { if (g_tok_next >= g_tok_avail) return 0; g_tok_next = g_tok_next + 1; tok->n = 1; tok->d[0] = (char)g_tok_next; tok->d[1] = 0; return 1; }
+static inline struct iss env_iss(const vstr* s) { struct iss r; r.dummy = s->n ? (int)s->d[0] : 0; return r; }
 /* per-field operations: fixed length fields; the offset each one is called with is recorded */
 size_t g_read_off[FCAP], g_reads_off[FCAP], g_write_off[FCAP]; unsigned g_read_calls[FCAP], g_reads_calls[FCAP], g_write_calls[FCAP];
 static inline size_t SDF_getLength(const struct SDF* f, PartType pt, size_t maxLength) { return pt == f->m_partType ? f->m_length : 0; }
@@ -36,7 +38,7 @@ static inline result_t SDF_read8(const struct SDF* f, const SymbolString* data, 
   g_reads_off[f->idx < FCAP ? f->idx : 0] = offset; g_reads_calls[f->idx < FCAP ? f->idx : 0]++; return nondet_bool() ? RESULT_OK : RESULT_EMPTY;
 }
 static inline result_t SDF_write(const struct SDF* f, char sep, size_t offset, struct iss* in, SymbolString* data, size_t* len) {
-  g_write_off[f->idx < FCAP ? f->idx : 0] = offset; g_write_calls[f->idx < FCAP ? f->idx : 0]++; *len = f->m_length; return RESULT_OK;
+  g_write_off[f->idx < FCAP ? f->idx : 0] = offset; g_write_calls[f->idx < FCAP ? f->idx : 0]++; g_field_tok[f->idx < FCAP ? f->idx : 0] = in->dummy; *len = f->m_length; return RESULT_OK;
 }
 #include "gen_protos.h"
 #include "gen_funcs.inc"
@@ -63,15 +65,22 @@ void h_layout(void) {
   result_t rr = DFS_read_num(&set, &data, base, NULL, -1, &out);
   struct oss os; long oidx = nondet_long(); __CPROVER_assume(oidx >= -1 && oidx <= 1000);
   result_t rs = DFS_read_str(&set, &data, base, nondet_bool(), NULL, -1, nondet_uint(), oidx, &os);
+  g_tok_next = 0; g_tok_avail = nondet_uint(); __CPROVER_assume(g_tok_avail <= FCAP); in.dummy = -1;
   result_t wr = DFS_write(&set, ';', base, &in, &data, &used);
   __CPROVER_assert(wr == RESULT_OK && used == len, "[C10] length computation and encoding agree on the number of bytes");
   /* walk over the fields with the end / kind of the preceding field of the same part */
-  _Bool have_prev = 0, pbit = 0, pquirk = 0; size_t pend = base; int pfb = -1; size_t pbc = 0; unsigned shared = 0;
+  _Bool have_prev = 0, pbit = 0, pquirk = 0; size_t pend = base; int pfb = -1; size_t pbc = 0; unsigned shared = 0; unsigned rank = 0;
   for (int i = 0; i < FCAP; i++) {
     if ((size_t)i < set.m_fields.n) {
       if (f[i].m_partType == pt) {
         __CPROVER_assert(g_read_calls[i] == 1 && g_reads_calls[i] == 1 && g_write_calls[i] == 1, "[C10] every field of the part is decoded (numeric and text form) and encoded once");
         __CPROVER_assert(g_read_off[i] == g_write_off[i] && g_reads_off[i] == g_write_off[i], "[C10] decoding and encoding use the same position for every field");
+        if (set.m_fields.n > 1) {
+          /* which part of the input text goes to which field: ignored fields take none, the others take the values in order */
+          int expect_tok = f[i].ignored ? 0 : (rank < g_tok_avail ? (int)rank + 1 : 0);
+          __CPROVER_assert(g_field_tok[i] == expect_tok, "[C06,C09,C10] the k-th value of the input text is encoded by the k-th non-ignored field of the part (missing values: empty input)");
+          if (!f[i].ignored) rank++;
+        } else { __CPROVER_assert(g_field_tok[i] == -1, "[C06,C10] a single field gets the whole input text"); }
         size_t off = g_write_off[i]; _Bool bit = is_bitfield(&f[i]); int fb = t[i].firstBit;
         if (!have_prev) { __CPROVER_assert(off == base, "[C10] the first field starts at the given offset"); }
         else {
@@ -93,5 +102,6 @@ void h_layout(void) {
   }
   __CPROVER_assert(len == pend - base, "[C10] the data length is the number of bytes spanned by the fields of the part");
   if (shared >= 3) { CANARY("bit fields share bytes"); }
+  if (rank >= 3 && g_tok_avail == 2) { CANARY("fewer values than fields"); }
   if (set.m_fields.n == FCAP && len > 20) { CANARY("eight fields"); }
 }
